@@ -7,6 +7,8 @@ CONSTANTS
   AutoAcquire = TRUE
   RelRule = TRUE
   Hist = FALSE
+  OnOpaque = {"raw"}
+  DupOpaque = FALSE
 SPECIFICATION Spec
-INVARIANTS TypeOK OwnAnswer MutexExcl QueryInSession OutShape RelLegal EmitRow
+INVARIANTS TypeOK OwnAnswer MutexExcl QueryInSession OutShape RelLegal ErrOnlyWhenDead ErrSuffix OpaqueOutcome EmitRow
 PROPERTIES Termination
